@@ -50,6 +50,7 @@ class SchemaSpec:
     specified_by: Dict[str, str] = field(default_factory=dict)
     schema_description: Optional[str] = None
     explicit_schema_block: bool = False
+    extend: Dict[str, int] = field(default_factory=dict)  # type name -> number of members kept in the base definition; the rest arrives in an `extend ...` block
 
     def definitions(self) -> List[str]:
         """One SDL string per top-level definition (used to partition a schema into files)."""
@@ -93,31 +94,63 @@ class SchemaSpec:
         for s in self.scalars:
             sb = ' @specifiedBy(url: "%s")' % self.specified_by[s] if s in self.specified_by else ""
             out.append(desc(self.descriptions.get(s)) + "scalar %s%s" % (s, sb))
+        later: List[str] = []  # `extend ...` blocks: after every base definition (a partition into files may still put them anywhere)
+
+        def split(name, members):
+            k = self.extend.get(name)
+            if k is None or not (0 < k < len(members)):
+                return members, []
+            return members[:k], members[k:]
+
         for name, values in self.enums.items():
-            lines = []
-            for v in values:
-                d, dep = self.enum_value_meta.get((name, v), (None, None))
-                lines.append(desc(d, "  ") + "  " + v + (' @deprecated(reason: "%s")' % dep if dep else ""))
-            out.append(desc(self.descriptions.get(name)) + "enum %s {\n%s\n}" % (name, "\n".join(lines)))
+            def enum_lines(vs):
+                lines = []
+                for v in vs:
+                    d, dep = self.enum_value_meta.get((name, v), (None, None))
+                    lines.append(desc(d, "  ") + "  " + v + (' @deprecated(reason: "%s")' % dep if dep else ""))
+                return "\n".join(lines)
+            base, ext = split(name, values)
+            out.append(desc(self.descriptions.get(name)) + "enum %s {\n%s\n}" % (name, enum_lines(base)))
+            if ext:
+                later.append("extend enum %s {\n%s\n}" % (name, enum_lines(ext)))
         for name, fields in self.inputs.items():
-            lines = []
-            for a in fields:
-                s = desc(a.description, "  ") + "  %s: %s" % (a.name, a.type)
-                if a.default is not None:
-                    s += " = " + a.default
-                if a.deprecated is not None:
-                    s += ' @deprecated(reason: "%s")' % a.deprecated
-                lines.append(s)
-            out.append(desc(self.descriptions.get(name)) + "input %s {\n%s\n}" % (name, "\n".join(lines)))
+            def input_lines(fs):
+                lines = []
+                for a in fs:
+                    s = desc(a.description, "  ") + "  %s: %s" % (a.name, a.type)
+                    if a.default is not None:
+                        s += " = " + a.default
+                    if a.deprecated is not None:
+                        s += ' @deprecated(reason: "%s")' % a.deprecated
+                    lines.append(s)
+                return "\n".join(lines)
+            base, ext = split(name, fields)
+            out.append(desc(self.descriptions.get(name)) + "input %s {\n%s\n}" % (name, input_lines(base)))
+            if ext:
+                later.append("extend input %s {\n%s\n}" % (name, input_lines(ext)))
         for name, (impl, fields) in self.interfaces.items():
             imp = " implements " + " & ".join(impl) if impl else ""
-            out.append(desc(self.descriptions.get(name)) + "interface %s%s {\n%s\n}" % (name, imp, fields_s(fields)))
+            base, ext = split(name, fields)
+            out.append(desc(self.descriptions.get(name)) + "interface %s%s {\n%s\n}" % (name, imp, fields_s(base)))
+            if ext:
+                later.append("extend interface %s {\n%s\n}" % (name, fields_s(ext)))
         for name, (impl, fields) in self.objects.items():
-            imp = " implements " + " & ".join(impl) if impl else ""
-            out.append(desc(self.descriptions.get(name)) + "type %s%s {\n%s\n}" % (name, imp, fields_s(fields)))
+            base, ext = split(name, fields)
+            if ext and impl and len(impl) > 1:
+                # the last interface is declared by the extension (`extend type X implements I { ... }`)
+                imp = " implements " + " & ".join(impl[:-1])
+                later.append("extend type %s implements %s {\n%s\n}" % (name, impl[-1], fields_s(ext)))
+            else:
+                imp = " implements " + " & ".join(impl) if impl else ""
+                if ext:
+                    later.append("extend type %s {\n%s\n}" % (name, fields_s(ext)))
+            out.append(desc(self.descriptions.get(name)) + "type %s%s {\n%s\n}" % (name, imp, fields_s(base)))
         for name, members in self.unions.items():
-            out.append(desc(self.descriptions.get(name)) + "union %s = %s" % (name, " | ".join(members)))
-        return out
+            base, ext = split(name, members)
+            out.append(desc(self.descriptions.get(name)) + "union %s = %s" % (name, " | ".join(base)))
+            if ext:
+                later.append("extend union %s = %s" % (name, " | ".join(ext)))
+        return out + later
 
     def sdl(self) -> str:
         return "\n\n".join(self.definitions()) + "\n"
@@ -252,6 +285,10 @@ class Names:
             return self._uniq("%s%s%d" % (a.capitalize(), self.rng.choice(WORDS).capitalize(), self.n))
         return self._uniq("%s_%s_%d" % (a, self.rng.choice(WORDS).upper(), self.n))
 
+
+CUSTOM_DIRECTIVE = "vfTag"
+CUSTOM_DIRECTIVE_SDL = ("directive @vfTag(label: String, n: Int = 1) repeatable on QUERY | MUTATION | SUBSCRIPTION | FIELD | FRAGMENT_DEFINITION | "
+                        "FRAGMENT_SPREAD | INLINE_FRAGMENT | VARIABLE_DEFINITION")
 
 STRING_DEFAULTS = ['"plain"', '""', '"with \\"quotes\\""', '"back\\\\slash"', '"uni ☃ é"', '"it\'s"', '"a#b=c{d}"']
 
@@ -472,6 +509,18 @@ class SchemaGen:
             for tname in list(spec.enums) + list(spec.inputs) + list(spec.objects) + list(spec.interfaces) + list(spec.unions) + list(spec.scalars):
                 if rng.random() < 0.4:
                     spec.descriptions[tname] = self.description()
+        if "dir.custom" in self.dirty:
+            # a directive of the server's own for every executable location: the client has to send it as written and must not read a meaning into it
+            spec.directives.append(CUSTOM_DIRECTIVE_SDL)
+            self.feats.add("dir.custom")
+        if "schema.extend" in self.dirty:
+            # rarely used, perfectly legal: part of a type's members arrives in `extend ...` blocks (own random stream: no other draw moves)
+            erng = random.Random(rng.random())
+            for tname, members in ([(n, v) for n, v in spec.enums.items()] + [(n, v) for n, v in spec.inputs.items()] + [(n, v[1]) for n, v in spec.interfaces.items()]
+                                   + [(n, v[1]) for n, v in spec.objects.items()] + [(n, v) for n, v in spec.unions.items()]):
+                if len(members) >= 2 and erng.random() < 0.5:
+                    spec.extend[tname] = erng.randrange(1, len(members))
+                    self.feats.add("schema.extend")
         return spec
 
 
